@@ -20,6 +20,7 @@ import (
 	"strconv"
 	"strings"
 	"sync"
+	"sync/atomic"
 	"testing"
 	"testing/synctest"
 	"time"
@@ -97,6 +98,7 @@ func TestC18(t *testing.T) {
 	}}, &jhttp.BridgeOptions{Server: &jrpc2.ServerOptions{Concurrency: 8}})
 	defer br.Close()
 	var hungOnce sync.Once
+	var hung atomic.Bool // a request was never answered: the bridge is wedged, stop sending
 	post := func(body string) *httptest.ResponseRecorder {
 		req := httptest.NewRequest("POST", "http://x/", strings.NewReader(body))
 		req.Header.Set("Content-Type", "application/json")
@@ -108,6 +110,7 @@ func TestC18(t *testing.T) {
 		case <-done:
 			return w
 		case <-time.After(5 * time.Second):
+			hung.Store(true)
 			hungOnce.Do(func() {
 				res.Violatef("an HTTP request to the bridge was never answered", map[string]any{"body": body}, "no response after 5s (other requests were in flight on the same bridge)")
 			})
@@ -124,7 +127,7 @@ func TestC18(t *testing.T) {
 	var lines []string
 	var all []*one
 	who := 0
-	for round := 0; round < pick(150, 1500); round++ {
+	for round := 0; round < pick(150, 1500) && !hung.Load(); round++ {
 		k := 2 + rng.Intn(5)
 		batch := make([]*one, k)
 		for i := range batch {
